@@ -38,7 +38,7 @@ THOROUGH = ["single_t", "pair_t", "triple_t", "hist_q", "hist_t", "reg_q", "reg_
 INV = {"quick": "inv_q", "thorough": "inv_t"}
 ACTIONS = {"inv": ["GenAddFactor", "GenSeal", "GenConvert", "GenBack", "GenVia", "GenScale", "GenContainer",
                    "GenIncompatible", "GenDimensionality", "GenDefaultUnit", "GenUnitlessIn", "GenDerived",
-                   "GenRoundTrip", "GenBackendExp", "GenHelper"]}
+                   "GenRoundTrip", "GenHelper", "GenUnitOf", "GenStrip"]}
 NUM = 4
 
 
@@ -46,36 +46,61 @@ NUM = 4
 def _helper(name, a, qs):
     import numpy as np
     import chempy.units as cu
+    ns = cu.patched_numpy if a.get("ns") == "patched_numpy" else cu
+    v = a.get("v", "default")
     qi, qj = qs[a["i"] - 1], qs[a["j"] - 1]
     arr = np.array([float(Fraction(*r)) for r in a["arr"]])
     yarr = np.array([float(Fraction(*r)) for r in a["yarr"]])
     coef = [float(Fraction(*r)) for r in a["coef"]]
-    deg = len(coef) - 1
+    deg = 1 if v == "deg1" else len(coef) - 1
+    other = arr * qj * cu.default_units.second if v == "incompat" else arr * qj    # "incompat": one more dimension
     if name == "allclose":
-        return {"bool": bool(cu.allclose(arr * qi, arr * qj, rtol=1e-8))}
+        kw = {"rtol": 1e-2} if v == "rtol2" else {"rtol": 1e-8}
+        if v == "atol_big":
+            kw["atol"] = 10 * abs(qj)
+        if v == "atol_small":
+            kw["atol"] = abs(qj) / 10
+        return {"bool": bool(ns.allclose(arr * qi, other, **kw))}
     if name == "compare_equality":
-        return {"bool": bool(np.all(cu.compare_equality(arr * qi, arr * qj)))}
+        return {"bool": bool(np.all(cu.compare_equality(arr * qi, other)))}
     if name == "linspace":
-        return {"outs": [uc.project_unitful(cu.linspace(qi, qj, NUM))["si"]]}
+        out = ns.linspace(qi, qj) if v == "num50" else ns.linspace(qi, qj, NUM)
+        return {"outs": [uc.project_unitful(out)["si"]]}
     if name == "logspace_from_lin":
         return {"outs": [uc.project_unitful(cu.logspace_from_lin(qi, qj, NUM))["si"]]}
     if name == "concatenate":
-        return {"outs": [uc.project_unitful(cu.concatenate((arr * qi, arr * qj)))["si"]]}
+        return {"outs": [uc.project_unitful(ns.concatenate((arr * qi, arr * qj)))["si"]]}
     if name == "tile":
-        return {"outs": [uc.project_unitful(cu.tile(arr * qi, 2))["si"]]}
+        return {"outs": [uc.project_unitful(ns.tile(arr * qi, 3 if v == "reps3" else 2))["si"]]}
     if name == "polyfit":
-        p = cu.polyfit(arr * qi, yarr * qj, deg)
-        return {"outs": [[uc.project_unitful(v)["si"]] for v in p]}
+        p = ns.polyfit(arr * qi, yarr * qj, deg)
+        return {"outs": [[uc.project_unitful(c)["si"]] for c in p]}
     if name == "polyval":
         uj = qj.units
         p = [c * uj ** (k + 1 - deg) for k, c in enumerate(coef)]
-        return {"outs": [uc.project_unitful(cu.polyval(p, arr * qi))["si"]]}
+        r = uc.project_unitful(ns.polyval(p, qi if v == "scalar" else arr * qi))["si"]
+        return {"outs": [r if isinstance(r, list) else [r]]}
     if name == "uniform":
-        return {"outs": [uc.project_unitful(cu.uniform([qi, qj]))["si"]]}
+        return {"outs": [uc.project_unitful(cu.uniform((qi, qj) if v == "tuple" else [qi, qj]))["si"]]}
     if name == "uniform_dict":
         r = cu.uniform({"a": qi, "b": qj})
         return {"outs": [[uc.project_unitful(r["a"])["si"], uc.project_unitful(r["b"])["si"]]]}
     raise ValueError(name)
+
+
+def _held(q, form, mults):
+    """the current quantity held as the case says: itself, or mults * q as a list / Quantity array / dict"""
+    import numpy as np
+    if form == "scalar":
+        return q
+    m = [float(Fraction(*x)) for x in mults]
+    if form == "list":
+        return [k * q for k in m]
+    if form == "array":
+        return np.array(m) * q
+    if form == "dict":
+        return {"k%d" % i: k * q for i, k in enumerate(m)}
+    raise ValueError(form)
 
 
 def _step(a, q, qs, q0ux):
@@ -84,10 +109,14 @@ def _step(a, q, qs, q0ux):
     import chempy.units as cu
     op = a["op"]
     if op == "convert":
+        import quantities as pq
         T = uc.unit_expr(a["t"])
         x = cu.to_unitless(q, T)
         nq = x * T
-        return {"x": float(x), "si": uc.project_unitful(nq)["si"]}, nq
+        r = cu.rescale(q, T)
+        uq = pq.UncertainQuantity(float(q.magnitude), q.units, abs(float(q.magnitude)) * 0.01)
+        return {"x": float(x), "si": uc.project_unitful(nq)["si"], "rs_x": float(r.magnitude), "rs_si": uc.project_unitful(r)["si"],
+                "uq_x": float(cu.to_unitless(uq, T))}, nq
     if op == "back":
         T = uc.unit_expr(q0ux)
         x = cu.to_unitless(q, T)
@@ -122,6 +151,9 @@ def _step(a, q, qs, q0ux):
         if kind == "array":
             mult = np.array([float(Fraction(*m)) for m in a["mults"]])
             return {"xs": uc.floats(cu.to_unitless(mult * q, T))}, None
+        if kind == "array2d":
+            m = [float(Fraction(*x)) for x in a["mults"]]
+            return {"xs": uc.floats(cu.to_unitless(np.array([[m[0], m[1]], [m[2], m[0]]]) * q, T))}, None
         raise ValueError(kind)
     if op == "plain":
         # q is a plain float here (unit-less value); the target is written as the case says
@@ -154,15 +186,33 @@ def _step(a, q, qs, q0ux):
     if op == "incompatible":
         T = uc.unit_expr(a["t"])
         o = uc.observe(cu.to_unitless, q, T)
+        o2 = uc.observe(cu.rescale, q, cu.default_units.dimensionless if T is None else T)
+        if "raised" in o:
+            return {"raised": True, "exc": o["raised"], "rs_raised": "raised" in o2}, None
+        return {"raised": False, "value": repr(o["v"])[:80], "rs_raised": "raised" in o2}, None
+    if op == "dimensionality":
+        v = _held(q, a.get("form", "scalar"), a.get("mults"))
+        return {"dim": uc.project_dimdict(cu.get_physical_dimensionality(v if a.get("form") != "dict" else q)),
+                "unitless": bool(cu.is_unitless(v))}, None
+    if op == "unitof":
+        form = a["form"]
+        v = {"scalar": q, "list": list(qs), "tuple": tuple(qs), "dict": {"k%d" % i: e for i, e in enumerate(qs)},
+             "array": np.array([float(Fraction(*m)) for m in a["mults"]]) * q}[form]
+        r = cu.unit_of(v, simplified=True) if a["simp"] else cu.unit_of(v)
+        out = uc.project_unitful(r)
+        out["mag"] = float(getattr(r, "magnitude", r))
+        return out, None
+    if op == "strip":
+        o = uc.observe(cu.to_unitless, q)
         if "raised" in o:
             return {"raised": True, "exc": o["raised"]}, None
-        return {"raised": False, "value": repr(o["v"])[:80]}, None
-    if op == "dimensionality":
-        return {"dim": uc.project_dimdict(cu.get_physical_dimensionality(q))}, None
+        return {"raised": False, "x": float(o["v"])}, None
     if op == "defunit":
         return uc.project_unitful(cu.default_unit_in_registry(q, uc.registry(a["reg"]))), None
     if op == "unitless":
-        return {"x": float(cu.unitless_in_registry(q, uc.registry(a["reg"])))}, None
+        form = a.get("form", "scalar")
+        r = cu.unitless_in_registry(_held(q, form, a.get("mults")), uc.registry(a["reg"]))
+        return ({"x": float(r)} if form == "scalar" else {"xs": uc.floats(r)}), None
     if op == "derived":
         return uc.project_unitful(cu.get_derived_unit(uc.registry(a["reg"]), a["key"])), None
     if op == "roundtrip":
@@ -194,10 +244,12 @@ def _step(a, q, qs, q0ux):
             arg = [[q, 1], [3, 4]]
         else:
             raise ValueError(form)
-        be = cu.Backend("math" if a["be"] == "math" else np)
+        be = {"math": lambda: cu.Backend("math"), "numpy": lambda: cu.Backend(np), "default": lambda: cu.Backend(),
+              "patched_numpy": lambda: cu.patched_numpy}[a["be"]]()
         kw = {"axis": 1} if form == "mixed" else {}
+        args = (arg, 2 * arg) if a["fn"] in ("logaddexp", "logaddexp2") else (arg,)
         with np.errstate(all="ignore"):
-            o = uc.observe(getattr(be, a["fn"]), arg, **kw)
+            o = uc.observe(getattr(be, a["fn"]), *args, **kw)
         if "raised" in o:
             return {"raised": True, "exc": o["raised"]}, None
         return {"raised": False, "value": uc.floats(o["v"])}, None
@@ -229,27 +281,27 @@ def run_history(cin, gens):
 
 
 # --------------------------------------------------------------------------- judging (spec -> code)
-def _plain(name, A, B, outs):
+def _plain(name, e, A, B, C, outs):
     """the plain numerical routine on magnitudes expressed in the common unit, times the SI size of
-    the unit of each output (all numbers come from the case)"""
+    the unit of each output (all numbers and keyword values come from the case)"""
     import numpy as np
     if name == "allclose":
-        return {"bool": bool(np.allclose(A, B, rtol=1e-8, atol=0))}
+        return {"bool": bool(np.allclose(A, B, rtol=10.0 ** -e["rtol10"], atol=C[0] if C else 0))}
     if name == "compare_equality":
         return {"bool": bool(np.array_equal(A, B))}
     if name == "linspace":
-        return {"outs": [np.linspace(A[0], B[0], NUM) * outs[0]]}
+        return {"outs": [np.linspace(A[0], B[0], e["num"]) * outs[0]]}
     if name == "logspace_from_lin":
         return {"outs": [np.geomspace(A[0], B[0], NUM) * outs[0]]}
     if name == "concatenate":
         return {"outs": [np.concatenate([A, B]) * outs[0]]}
     if name == "tile":
-        return {"outs": [np.tile(A, 2) * outs[0]]}
+        return {"outs": [np.tile(A, e["reps"]) * outs[0]]}
     if name == "polyfit":
-        p = np.polyfit(A, B, len(outs) - 1)
+        p = np.polyfit(A, B, e["deg"])
         return {"outs": [[p[k] * outs[k]] for k in range(len(outs))]}
     if name == "polyval":
-        return {"outs": [np.polyval(B, A) * outs[0]]}
+        return {"outs": [np.atleast_1d(np.polyval(B, A)) * outs[0]]}
     if name in ("uniform", "uniform_dict"):
         return {"outs": [np.array(A) * outs[0]]}
     raise ValueError(name)
@@ -265,6 +317,10 @@ def judge(a, obs, e, gv, tol10, htol10):
             return "magnitude"
         if not uc.close(obs["si"], uc.num(e["si"], gv), tol10):
             return "multiply-back"
+        if "rs_x" in obs and not (uc.close(obs["rs_x"], uc.num(e["x"], gv), tol10) and uc.close(obs["rs_si"], uc.num(e["si"], gv), tol10)):
+            return "rescale"
+        if "uq_x" in obs and not uc.close(obs["uq_x"], uc.num(e["x"], gv), tol10):
+            return "uncertain-magnitude"
         return None
     if op == "via":
         if not uc.close(obs["x"], uc.num(e["x"], gv), tol10):
@@ -272,7 +328,23 @@ def judge(a, obs, e, gv, tol10, htol10):
         if not uc.close(obs["y"], uc.num(e["y"], gv), tol10):
             return "composed"
         return None
+    if op == "unitless" and "xs" in e:
+        if len(obs["xs"]) != len(e["xs"]):
+            return "length"
+        return None if all(uc.close(x, uc.num(ex, gv), tol10) for x, ex in zip(obs["xs"], e["xs"])) else "element"
     if op in ("scale", "unitless"):
+        return None if uc.close(obs["x"], uc.num(e["x"], gv), tol10) else "magnitude"
+    if op == "unitof":
+        if obs["dim"] != e["unit"]["dim"]:
+            return "unit-dimension"
+        if not uc.close(obs["si"], uc.scale_num(e["unit"]["scale"], gv), tol10):
+            return "unit-size"
+        return None if uc.close(obs["mag"], uc.num(e["mag"], gv), tol10) else "simplified"
+    if op == "strip":
+        if e["raise"]:
+            return None if obs["raised"] else "missing-raise"
+        if obs["raised"]:
+            return "unexpected-raise"
         return None if uc.close(obs["x"], uc.num(e["x"], gv), tol10) else "magnitude"
     if op == "plain":
         if len(obs["xs"]) != len(e["xs"]):
@@ -293,9 +365,13 @@ def judge(a, obs, e, gv, tol10, htol10):
             return "keys"
         return None
     if op == "incompatible":
-        return None if obs["raised"] else "missing-raise"
+        if not obs["raised"]:
+            return "missing-raise"
+        return None if obs["rs_raised"] else "rescale-missing-raise"
     if op == "dimensionality":
-        return None if obs["dim"] == e["dim"] else "dimensionality"
+        if obs["dim"] != e["dim"]:
+            return "dimensionality"
+        return None if obs["unitless"] == e["unitless"] else "is_unitless"
     if op in ("defunit", "derived"):
         if obs["dim"] != e["unit"]["dim"]:
             return "unit-dimension"
@@ -314,13 +390,18 @@ def judge(a, obs, e, gv, tol10, htol10):
             return None if obs["raised"] else "missing-raise"
         import numpy as np
         vals = np.array([float(uc.num(v, gv)) for v in e["vals"]])
+        vals2 = np.array([float(uc.num(v, gv)) for v in e["vals2"]])
         try:   # the plain routine on the pure values
             with np.errstate(all="ignore"):
-                if a["fn"] == "exp":
-                    want = [math.exp(v) for v in vals] if a["be"] == "math" else list(np.exp(vals))
-                else:
+                if a["fn"] == "sum":
                     want = list(np.atleast_1d(np.sum(vals.reshape(e["rows"], -1), axis=1 if e["rows"] > 1 else None)))
-        except OverflowError:
+                elif a["be"] == "math":
+                    want = [getattr(math, a["fn"])(v) for v in vals]
+                elif len(vals2):
+                    want = list(getattr(np, a["fn"])(vals, vals2))
+                else:
+                    want = list(getattr(np, a["fn"])(vals))
+        except (OverflowError, ValueError):     # the plain routine itself refuses the number
             return None if obs["raised"] else "missing-raise"
         if obs["raised"]:
             return "unexpected-raise"
@@ -328,19 +409,22 @@ def judge(a, obs, e, gv, tol10, htol10):
             return "shape"
         for w, o in zip(want, obs["value"]):
             if not math.isfinite(w):
-                if math.isfinite(o):
+                if math.isfinite(o) or (math.isnan(w) != math.isnan(o)):
                     return "value"
             elif not uc.close(o, Fraction(float(w)), htol10):
                 return "value"
         return None
     if op == "helper":
         name = a["name"]
+        if e["incompat"]:     # values of different dimensions are never close / equal
+            return None if obs.get("bool") is False else "truth-value"
         if name == "compare_equality" and e["same"]:
             return None  # equality of independently rounded doubles is not decided (see skip count)
         A = [float(uc.num(v, gv)) for v in e["A"]]
         B = [float(uc.num(v, gv)) for v in e["B"]]
+        C = [float(uc.num(v, gv)) for v in e["C"]]
         outs = [float(uc.num(v, gv)) for v in e["outs"]]
-        want = _plain(name, A, B, outs)
+        want = _plain(name, e, A, B, C, outs)
         if "bool" in want:
             return None if obs.get("bool") == want["bool"] else "truth-value"
         if len(want["outs"]) != len(obs["outs"]):
@@ -380,7 +464,7 @@ def replay_case(case):
 def _fn_of(a):
     return {"convert": "to_unitless", "back": "to_unitless", "via": "to_unitless", "scale": "to_unitless",
             "container": "to_unitless", "incompatible": "to_unitless", "plain": "to_unitless", "dimensionality": "get_physical_dimensionality",
-            "defunit": "default_unit_in_registry", "unitless": "unitless_in_registry", "derived": "get_derived_unit",
+            "unitof": "unit_of", "strip": "to_unitless", "defunit": "default_unit_in_registry", "unitless": "unitless_in_registry", "derived": "get_derived_unit",
             "roundtrip": "unit_registry_from_human_readable", "bexp": "Backend.exp"}.get(a["op"], a.get("name", a["op"]))
 
 
@@ -398,6 +482,12 @@ def _key(case, i, a, clause):
         key.update(_plain_key(a))
     if a["op"] == "bexp":
         key.update(be=a["be"], call=a["fn"], form=a["form"])
+    if a["op"] == "helper":
+        key.update(variant=a.get("v", "default"), ns=a.get("ns", "units"))
+    if a["op"] in ("dimensionality", "unitless", "unitof") and "form" in a:
+        key["form"] = a["form"]
+    if a["op"] == "incompatible":
+        key["value"] = "plain-number" if not case["in"]["ux"] else "quantity"
     if a["op"] == "derived":
         key["key"] = a["key"]
     if a["op"] == "roundtrip":
@@ -433,7 +523,7 @@ def trace_of(cin, obs):
         if op in ("convert", "back"):
             e.update(x=_enc(o["x"]), si=_enc(o["si"]))
             if op == "convert":
-                e["t"] = a["t"]
+                e.update(t=a["t"], rs_x=_enc(o["rs_x"]), rs_si=_enc(o["rs_si"]), uq_x=_enc(o["uq_x"]))
         elif op == "via":
             e.update(u1=a["u1"], u2=a["u2"], x=_enc(o["x"]), y=_enc(o["y"]))
         elif op == "scale":
@@ -443,15 +533,20 @@ def trace_of(cin, obs):
         elif op == "plain":
             e.update(form=a["form"], tw=a["tw"], k=a["k"], t=a["t"], xs=[_enc(v) for v in o["xs"]])
         elif op == "incompatible":
-            e.update(t=a["t"], raised=bool(o["raised"]))
+            e.update(t=a["t"], raised=bool(o["raised"]), rs_raised=bool(o["rs_raised"]))
         elif op == "dimensionality":
-            e.update(dim={k: o["dim"].get(k, 0) for k in uc.DIMS}, extra=sorted(set(o["dim"]) - set(uc.DIMS)))
+            e.update(form=a.get("form", "scalar"), dim={k: o["dim"].get(k, 0) for k in uc.DIMS},
+                     extra=sorted(set(o["dim"]) - set(uc.DIMS)), unitless=bool(o["unitless"]))
+        elif op == "unitof":
+            e.update(form=a["form"], simp=bool(a["simp"]), dim={k: o["dim"].get(k, 0) for k in uc.DIMS}, si=_enc(o["si"]), mag=_enc(o["mag"]))
+        elif op == "strip":
+            e.update(raised=bool(o["raised"]), x=_enc(o.get("x", 0.0)))
         elif op in ("defunit", "derived"):
             e.update(reg=uc.reg_event(a["reg"]), dim={k: o["dim"].get(k, 0) for k in uc.DIMS}, si=_enc(o["si"]))
             if op == "derived":
                 e["key"] = a["key"]
         elif op == "unitless":
-            e.update(reg=uc.reg_event(a["reg"]), x=_enc(o["x"]))
+            e.update(reg=uc.reg_event(a["reg"]), form=a.get("form", "scalar"), x=_enc(o.get("x", 0.0)), xs=[_enc(v) for v in o.get("xs", [])])
         elif op == "roundtrip":
             e.update(reg=uc.reg_event(a["reg"]),
                      units=[{"d": k, "dim": {kk: o["units"][k]["dim"].get(kk, 0) for kk in uc.DIMS},
@@ -543,7 +638,7 @@ class Gen(object):
         cur = ux
         for _ in range(self.r.randint(1, self.max_ops)):
             k = self.r.choice(["convert", "convert", "via", "scale", "back", "container", "incompatible",
-                               "dimensionality", "defunit", "unitless", "derived", "roundtrip", "bexp"])
+                               "dimensionality", "defunit", "unitless", "derived", "roundtrip", "bexp", "unitof", "strip"])
             if k == "convert":
                 cur = self.compatible(cur)
                 ops.append({"op": "convert", "t": cur})
@@ -557,18 +652,29 @@ class Gen(object):
                 ops.append({"op": "back"})
                 cur = ux
             elif k == "container":
-                ops.append({"op": "container", "kind": self.r.choice(["list", "tuple", "objarray", "dict", "array"]),
+                ops.append({"op": "container", "kind": self.r.choice(["list", "tuple", "objarray", "dict", "array", "array2d"]),
                             "t": self.compatible(cur), "mults": [[1, 1], [2, 1], [-3, 2]]})
             elif k == "incompatible":
                 t = list(self.compatible(cur)) + [{"n": self.r.choice(["m", "kg", "s", "A", "K", "mol", "km", "min", "mmol"]),
                                                    "p": self.r.choice([-1, 1])}]
                 ops.append({"op": "incompatible", "t": t})
-            elif k in ("defunit", "unitless", "roundtrip"):
+            elif k == "unitless":
+                ops.append({"op": k, "reg": self.r.choice(self.regs), "form": self.r.choice(["scalar", "list", "array"]),
+                            "mults": [[1, 1], [2, 1], [-3, 2]]})
+            elif k == "dimensionality":
+                ops.append({"op": k, "form": self.r.choice(["scalar", "list", "array", "dict"]), "mults": [[1, 1], [2, 1], [-3, 2]]})
+            elif k == "unitof":
+                ops.append({"op": k, "form": self.r.choice(["scalar", "list", "tuple", "dict", "array"]), "simp": self.r.random() < 0.5,
+                            "mults": [[1, 1], [2, 1], [-3, 2]]})
+            elif k in ("defunit", "roundtrip"):
                 ops.append({"op": k, "reg": self.r.choice(self.regs)})
             elif k == "derived":
                 ops.append({"op": k, "reg": self.r.choice(self.regs), "key": self.r.choice(self.keys)})
             elif k == "bexp":
-                be, fn, form = self.r.choice([("math", "exp", "quantity"), ("math", "exp", "unit"), ("math", "exp", "uncertain"),
+                be, fn, form = self.r.choice([("default", "log", "quantity"), ("patched_numpy", "exp", "quantity"), ("patched_numpy", "log10", "array"),
+                                              ("patched_numpy", "logaddexp", "quantity"), ("numpy", "logaddexp2", "array"), ("math", "log1p", "quantity"),
+                                              ("patched_numpy", "expm1", "list"), ("default", "log2", "unit"),
+                                              ("math", "exp", "quantity"), ("math", "exp", "unit"), ("math", "exp", "uncertain"),
                                               ("numpy", "exp", "quantity"), ("numpy", "exp", "unit"), ("numpy", "exp", "uncertain"),
                                               ("numpy", "exp", "list"), ("numpy", "exp", "array"), ("numpy", "exp", "objarray"),
                                               ("numpy", "sum", "list"), ("numpy", "sum", "array"), ("numpy", "sum", "mixed")])
@@ -601,7 +707,7 @@ def _run_history_q(mag, h):
 
 
 # --------------------------------------------------------------------------- run
-REQUIRED_OPS = {"convert", "back", "via", "scale", "container", "incompatible", "dimensionality", "defunit",
+REQUIRED_OPS = {"unitof", "strip", "convert", "back", "via", "scale", "container", "incompatible", "dimensionality", "defunit",
                 "unitless", "derived", "roundtrip", "bexp", "helper", "plain"}
 
 
@@ -618,7 +724,7 @@ def run(ctx):
     cat = {n: tuple(v["dim"][k] for k in uc.DIMS) for n, v in meta["cat"].items()}
 
     # 2. spec -> code
-    per_slice = 1200 if ctx.quick else None
+    per_slice = 800 if ctx.quick else None
     skipped_eq = 0
     seen_ops = set()
     for sl, res in zip(slices, results[2:]):
@@ -646,7 +752,7 @@ def run(ctx):
     ctx.exhaustive = not ctx.quick
 
     # 3. code -> spec
-    n = 1000 if ctx.quick else 16000
+    n = 700 if ctx.quick else 16000
     g = Gen(ctx.rng, cat, meta["regs"], meta["keys"], max_factors=4 if ctx.quick else 5, max_ops=4 if ctx.quick else 6)
     hs = [g.history() for _ in range(n)]
     outs = ctx.pmap(_run_trace, hs)
